@@ -59,6 +59,9 @@ class StubSock:
         self.sent.append(data[:k])
         return k
 
+    def close(self):
+        pass
+
     def feed_item(self, it):
         if it == ".":
             self.inq.append(("eagain",))
